@@ -345,19 +345,16 @@ func ruleOptions(c *Ctx, prefix string) {
 		if _, ok := exempt[shortName(fnPkgPath(fn))]; ok {
 			continue
 		}
-		for _, b := range fn.Blocks {
-			for _, in := range b.Instrs {
-				if e := emissionOf(in); e != nil {
-					c.R.unk(prefix+"OPT.GATE", shortFn(fn)+" emission outside the frozen table", c.P.InstrPos(in), shortFn(fn), "a handler that is not in the option table adds an option to the reply; the table must be extended")
-				}
+		eachInstr(fn, func(in ssa.Instruction) {
+			if e := emissionOf(in); e != nil {
+				c.R.unk(prefix+"OPT.GATE", shortFn(fn)+" emission outside the frozen table", c.P.InstrPos(in), shortFn(fn), "a handler that is not in the option table adds an option to the reply; the table must be extended")
 			}
-		}
+		})
 	}
 }
 
 func checkOptionHandler(c *Ctx, prefix string, fn *ssa.Function, sp optSpec) {
 	c.R.Functions[shortFn(fn)] = true
-	info := InfoOf(fn)
 	type siteRes struct {
 		e      *emission
 		states int
@@ -367,16 +364,14 @@ func checkOptionHandler(c *Ctx, prefix string, fn *ssa.Function, sp optSpec) {
 	}
 	sites := map[ssa.Instruction]*siteRes{}
 	var order []ssa.Instruction
-	for _, b := range fn.Blocks {
-		for _, in := range b.Instrs {
-			if e := emissionOf(in); e != nil {
-				sites[in] = &siteRes{e: e, bad: map[string]string{}}
-				order = append(order, in)
-			}
+	eachInstr(fn, func(in ssa.Instruction) {
+		if e := emissionOf(in); e != nil {
+			sites[in] = &siteRes{e: e, bad: map[string]string{}}
+			order = append(order, in)
 		}
-	}
+	})
 	ex := NewExplorer(c.P, c.Pure, fn)
-	respParam := fn.Params[sp.RespIdx]
+	respCanon := fmt.Sprintf("$%d", sp.RespIdx)
 	ex.Hooks.Label = func(st *State, in ssa.Instruction) string {
 		if sr, ok := sites[in]; ok && sr.row != nil {
 			if st.seen["emit:"+sr.row.Name] {
@@ -386,14 +381,7 @@ func checkOptionHandler(c *Ctx, prefix string, fn *ssa.Function, sp optSpec) {
 		}
 		return ""
 	}
-	// resolve code/row per site first (stateless)
-	for _, in := range order {
-		sr := sites[in]
-		code, ok := optionCodeOf(c, sr.e.Opt, 0)
-		if !ok {
-			sr.bad["OPT.CODE-AGREE"] = "cannot derive the option code of the emitted value from the program"
-			continue
-		}
+	setCode := func(sr *siteRes, code string) {
 		sr.code = code
 		for i := range sp.Rows {
 			if sp.Rows[i].Code == code {
@@ -404,12 +392,28 @@ func checkOptionHandler(c *Ctx, prefix string, fn *ssa.Function, sp optSpec) {
 			sr.bad["OPT.CODE-AGREE"] = fmt.Sprintf("emits option code %s, which is not what this plugin is specified to emit (%s)", code, rowCodes(sp.Rows))
 		}
 	}
+	// resolve code/row per site first (stateless)
+	for _, in := range order {
+		sr := sites[in]
+		code, ok := optionCodeOf(c, sr.e.Opt, 0)
+		if !ok {
+			continue // a helper's parameter: resolved per path in the hook below
+		}
+		setCode(sr, code)
+	}
 	ex.Hooks.Instr = func(st *State, in ssa.Instruction) {
 		sr, ok := sites[in]
 		if !ok {
 			return
 		}
 		sr.states++
+		if sr.code == "" {
+			if code, ok := optionCodeOf(c, ex.Resolve(st, sr.e.Opt), 0); ok {
+				setCode(sr, code)
+			} else {
+				sr.bad["OPT.CODE-AGREE"] = "cannot derive the option code of the emitted value from the program"
+			}
+		}
 		// receiver must be the response parameter
 		rc := ex.Canon(st, sr.e.Recv).S
 		if !strings.HasPrefix(rc, fmt.Sprintf("$%d", sp.RespIdx)) {
@@ -432,7 +436,7 @@ func checkOptionHandler(c *Ctx, prefix string, fn *ssa.Function, sp optSpec) {
 				}
 			}
 		}
-		if !sr.e.Idempotent && info.InLoop[in.Block().Index] {
+		if !sr.e.Idempotent && inLoopCtx(st, in) {
 			sr.bad["OPT.ONCE"] = fmt.Sprintf("%s via %s inside a loop: the option can be added more than once per reply", sr.row.Name, sr.e.How)
 		}
 		if st.seen["emit:"+sr.row.Name] && !sr.e.Idempotent {
@@ -447,8 +451,12 @@ func checkOptionHandler(c *Ctx, prefix string, fn *ssa.Function, sp optSpec) {
 			return
 		}
 		nExit++
-		r0 := ex.Resolve(st, ret.Results[0])
-		r1, _ := ex.Resolve(st, ret.Results[1]).(*ssa.Const)
+		r0c, r1c := ex.Canon(st, ret.Results[0]).S, ex.Canon(st, ret.Results[1]).S
+		r0nil := r0c == "nil"
+		if n, _ := ex.NilState(st, ret.Results[0]); n == 1 {
+			r0nil = true
+		}
+		r1known := r1c == "true" || r1c == "false"
 		emitted := false
 		for i := range sp.Rows {
 			row := &sp.Rows[i]
@@ -456,14 +464,14 @@ func checkOptionHandler(c *Ctx, prefix string, fn *ssa.Function, sp optSpec) {
 			emitted = emitted || seen
 			g := row.Gate(st)
 			// converse: entitled clients get the option
-			if g == 1 && !seen && !isNilConst(r0) && len(exitBad) < 4 {
+			if g == 1 && !seen && !r0nil && len(exitBad) < 4 {
 				exitBad = append(exitBad, fmt.Sprintf("return at %s without %s although the client is entitled to it", c.P.InstrPos(in), row.Name))
 			}
-			if seen && row.Stop != nil && (r1 == nil || (constStr(r1) == "true") != *row.Stop) && len(exitBad) < 4 {
-				exitBad = append(exitBad, fmt.Sprintf("after emitting %s the handler returns stop=%v, want %v", row.Name, r1, *row.Stop))
+			if seen && row.Stop != nil && (!r1known || (r1c == "true") != *row.Stop) && len(exitBad) < 4 {
+				exitBad = append(exitBad, fmt.Sprintf("after emitting %s the handler returns stop=%v, want %v", row.Name, r1c, *row.Stop))
 			}
 		}
-		if isNilConst(r0) {
+		if r0nil {
 			// dropping is only allowed under the spec's drop condition or on decapsulation errors
 			if sp.NilDrop != nil && sp.NilDrop(st) == 1 {
 				return
@@ -479,14 +487,14 @@ func checkOptionHandler(c *Ctx, prefix string, fn *ssa.Function, sp optSpec) {
 		if sp.NilDrop != nil && sp.NilDrop(st) == 1 && len(exitBad) < 4 {
 			exitBad = append(exitBad, fmt.Sprintf("return at %s answers although the specified drop condition holds", c.P.InstrPos(in)))
 		}
-		if p, ok := r0.(*ssa.Parameter); !ok || p != respParam {
+		if r0c != respCanon {
 			if len(exitBad) < 4 {
 				exitBad = append(exitBad, fmt.Sprintf("return at %s does not return the response it was given", c.P.InstrPos(in)))
 			}
 		}
-		if !emitted && (r1 == nil || (constStr(r1) == "true") != sp.NoEmitStop) && len(exitBad) < 4 {
+		if !emitted && (!r1known || (r1c == "true") != sp.NoEmitStop) && len(exitBad) < 4 {
 			if sp.Pkg != "nbp" { // nbp stops the chain whether or not it added something
-				exitBad = append(exitBad, fmt.Sprintf("return at %s without emission has stop=%v, want %v", c.P.InstrPos(in), r1, sp.NoEmitStop))
+				exitBad = append(exitBad, fmt.Sprintf("return at %s without emission has stop=%v, want %v", c.P.InstrPos(in), r1c, sp.NoEmitStop))
 			}
 		}
 	}
